@@ -102,7 +102,7 @@ def _http_free(data, prefix_i):
 
 # ---------------------------------------------------------------- FTP control
 _REPLY_LINES = ['220 ok', '220-multi', ' 220 indented', '22', '2x0 bad', '', '\x00\xff', '999999999999 big', '227 (1,2,3,4,5,6)', '227 (1,2,3,4,5)',
-                '227 (999,999,999,999,999,999)', '200 ok\r200 again', '200-a\r\r226 b', '220 ' + 'y' * 70000, '213 12', '213 x', '213 ' + '9' * 400, '331 pw', '230 in', '-', '٢٢٠ arabic', '150 go', '226 done', '2200']
+                '227 (999,999,999,999,999,999)', '200 ok\r200 again', '200-a\r\r226 b', '220 ' + 'y' * 70000, '213 ', '213', '213 1024 bytes', '213 -5', '213 12', '213 x', '213 ' + '9' * 400, '331 pw', '230 in', '-', '٢٢٠ arabic', '150 go', '226 done', '2200']
 
 
 def _ftp_control(l1, l2, l3, n, op, eof):
@@ -386,6 +386,41 @@ def _sitemap_documents(doc_i, url_i):
     return True
 
 
+_COOKIES2 = ['z=1; Path=/b', 'z=1', 'c0=new', 'z=' + 'v' * 5000, 'z=1; Domain=other.example', 'z=1; Path=/b; Domain=.a.example', 'z=\xe9', '=novalue', 'z',
+             'z=1; Max-Age=notanumber', 'z=1; Expires=tomorrow-ish', 'z=1; Path=', ';;;', 'z=1; Version=1; Port="80,x"', 'z=1; Secure; HttpOnly; Path=/b/c/d']
+
+
+def _cookie_flood(n_i, c2_i, path_i):
+    """A host that has already set n cookies sets one more (hostile attribute mix) from another path, through the real cookie jar
+    with wpull's own policy."""
+    import http.cookiejar
+    from wpull.cookie import DeFactoCookiePolicy
+    from wpull.cookiewrapper import CookieJarWrapper
+    from wpull.protocol.http.web import WebSession
+    from wpull.protocol.http.redirect import RedirectTracker
+    from wpull.protocol.http.request import Request as HReq
+    from crosshair.tracers import NoTracing
+    clear_url_memo()
+    n = pick([0, 1, 49, 50, 51, 60], n_i)
+    c2 = pick(_COOKIES2, c2_i)
+    path2 = pick(['/b/page2', '/a/page3', '/'], path_i)
+    with nosym():
+        jar = http.cookiejar.CookieJar()
+        jar.set_policy(DeFactoCookiePolicy(cookie_jar=jar))
+        wrapped = CookieJarWrapper(jar)
+        first = tuple(('Set-Cookie', 'c%d=v%d' % (i, i)) for i in range(n))
+        script = [(200, None, first), (200, None, (('Set-Cookie', c2),)), (200, None, ())]
+        client = stubs.StubHTTPClient(script=script)
+        for u in ('http://a.example/a/page1', 'http://a.example' + path2, 'http://a.example/a/page3'):
+            ws = WebSession(HReq(u), client, RedirectTracker(max_redirects=5), HReq, cookie_jar=wrapped)
+            try:
+                run(ws.start())
+            except REMOTE:
+                pass
+    hit('many' if n >= 50 else 'few')
+    return len(client.sent) == 3
+
+
 def _file_continue(status_i, ftp, restart_ok):
     """--continue: a partial local file exists, the request asks for the rest; the server answers with something else than the
     requested remainder (200 instead of 206, 416 for a complete file, an error page; FTP: REST refused)."""
@@ -490,7 +525,7 @@ HARNESSES = [
       timeout={'quick': 250, 'thorough': 1800}, samples=[(0, 0, 0, 1, 0, False), (14, 15, 0, 2, 1, False), (8, 0, 0, 1, 2, False)], need=['remote-error', 'ok'],
       funcs=['wpull/protocol/ftp/stream.py:ControlStream.read_reply', 'wpull/protocol/ftp/request.py:Reply.parse', 'wpull/protocol/ftp/command.py:Commander.login',
              'wpull/protocol/ftp/command.py:Commander.passive_mode', 'wpull/protocol/ftp/command.py:Commander.size', 'wpull/protocol/ftp/util.py:parse_address'],
-      doc='sequences of 1-3 reply lines from a pool of 24 malformed / odd shapes (bare CR inside a line, a line over 64 KiB ...), optionally cut off, fed to welcome / login / PASV / SIZE / '
+      doc='sequences of 1-3 reply lines from a pool of 24 malformed / odd shapes (bare CR inside a line, a line over 64 KiB, SIZE replies with empty / negative / decorated text ...), optionally cut off, fed to welcome / login / PASV / SIZE / '
           'REST / RETR handling: success or a per-URL error kind'),
     H('ftp_listing', '_ftp_listing', 't1: int, t2: int, t3: int, t4: int, ntok: int, t5: int, t6: int, nlines: int, mlsd: bool',
       pre=[' and '.join('0 <= t%d < %d' % (i, len(_TOK)) for i in range(1, 7)) + ' and 1 <= ntok <= 4 and 1 <= nlines <= 2'],
@@ -529,6 +564,12 @@ HARNESSES = [
       doc='--retr-symlinks=off: every pair from 12 symlink entries of a listing (duplicate names, names with / or .., absolute, empty, '
           'no target, NUL) over a model of os.symlink: the processor returns normally and every link created lies directly in the '
           'directory of the listing'),
+    H('cookie_flood', '_cookie_flood', 'n_i: int, c2_i: int, path_i: int', pre=['0 <= n_i <= 5 and 0 <= c2_i < %d and 0 <= path_i <= 2' % len(_COOKIES2)],
+      timeout={'quick': 250, 'thorough': 600}, samples=[(3, 0, 0), (0, 3, 1), (5, 2, 2)], need=['many', 'few'],
+      funcs=['wpull/cookie.py:DeFactoCookiePolicy.set_ok', 'wpull/cookiewrapper.py:CookieJarWrapper.extract_cookies', 'wpull/protocol/http/web.py:WebSession._process_response'],
+      doc='a host with 0 / 1 / 49 / 50 / 51 / 60 cookies in the jar sets one more (15 hostile Set-Cookie shapes: new path, oversized, '
+          'foreign domain, non-ASCII, malformed attributes) from 3 request paths, through the real jar with wpull\'s DeFactoCookiePolicy: '
+          'every response is processed, nothing is raised'),
     H('sitemap_documents', '_sitemap_documents', 'doc_i: int, url_i: int', pre=['0 <= doc_i < %d and 0 <= url_i <= 2' % len(_SITEMAPS)],
       timeout={'quick': 120, 'thorough': 300}, samples=[(2, 1), (1, 0), (6, 1)], need=['scraped'],
       funcs=['wpull/scraper/sitemap.py:SitemapScraper.scrape', 'wpull/document/sitemap.py:SitemapReader.iter_links', 'wpull/document/sitemap.py:SitemapReader.is_file'],
